@@ -146,8 +146,9 @@ impl fmt::Display for BlobRef {
     fn fmt(&self, f: &mut fmt::Formatter<'_>) -> fmt::Result {
         for &b in &self.0 {
             match b {
-                b'\\' => write!(f, "\\\\")?,
-                b'\'' => write!(f, "''")?,
+                // a backslash or a quote is written as a hex escape, like every other byte that
+                // `FromStr` would not read back as itself: `\\` would be read as two backslashes
+                b'\\' | b'\'' => write!(f, "\\x{b:02X}")?,
                 32..=126 => write!(f, "{}", b as char)?,
                 _ => write!(f, "\\x{b:02X}")?,
             }
